@@ -282,18 +282,31 @@ def build_matcharm(spec: dict, sections: dict, log: list, twin: bool = False):
     src = read_repo(relfile)
     it = rsx.find_item(relfile, src, 'fn', spec['fn'], in_impl=spec.get('in_impl'), in_mod=spec.get('in_mod'))
     toks = it.toks
-    first = [t.text for t in rsx.tokenize(spec['first'])]
-    hit = None
-    for j in range(it.open_tok + 1, it.close_tok - len(first)):
-        if [t.text for t in toks[j:j + len(first)]] == first:
-            k = j + len(first)
-            while k < it.close_tok and toks[k].text != '=>':
-                if toks[k].text in ('(', '[', '{'):
-                    k = rsx.match_close(toks, k)
-                k += 1
-            if k < it.close_tok and toks[k + 1].text == '{':
-                hit = (j, k + 1, rsx.match_close(toks, k + 1))
-                break
+    def find_arm(text, lo, hi):
+        first = [t.text for t in rsx.tokenize(text)]
+        exact = first[-1] == '=>'           # `PATTERN =>`: the whole pattern is given (e.g. `_ =>`)
+        if exact:
+            first = first[:-1]
+        for j in range(lo + 1, hi - len(first)):
+            if [t.text for t in toks[j:j + len(first)]] == first and toks[j - 1].text in ('{', '}', ','):
+                k = j + len(first)
+                if exact and toks[k].text != '=>':
+                    continue
+                while k < hi and toks[k].text != '=>':
+                    if toks[k].text in ('(', '[', '{'):
+                        k = rsx.match_close(toks, k)
+                    k += 1
+                if k < hi and toks[k + 1].text == '{':
+                    return (j, k + 1, rsx.match_close(toks, k + 1))
+        return None
+    lo, hi = it.open_tok, it.close_tok
+    if spec.get('within'):
+        # the arm is looked for inside the block of an enclosing arm
+        outer = find_arm(spec['within'], lo, hi)
+        if outer is None:
+            raise LostAnchor(f"{relfile}: fn {spec['fn']}: enclosing match arm starting with `{spec['within']}` not found")
+        lo, hi = outer[1], outer[2]
+    hit = find_arm(spec['first'], lo, hi)
     if hit is None:
         raise LostAnchor(f"{relfile}: fn {spec['fn']}: match arm starting with `{spec['first']}` with a block body not found")
     j, o, c = hit
@@ -329,10 +342,17 @@ def build_matcharm(spec: dict, sections: dict, log: list, twin: bool = False):
     contract = sections.get(('contract',), '')
     if twin:
         contract = re.sub(r'\bensures\b', 'ensures false,', contract, count=1) if re.search(r'\bensures\b', contract) else contract.rstrip() + '\n    ensures false,\n'
-    head = f"pub fn {name}({spec['params']})\n{contract.rstrip()}\n"
-    text = head + body + '\n'
+    rty = f" -> ({spec.get('ret', 'r')}: {spec['rtype']})" if spec.get('rtype') else ''
+    head = f"pub fn {name}({spec['params']}){rty}\n{contract.rstrip()}\n"
     line0 = it.line_of(toks[j].start)
-    origins = [(relfile, line0)] * head.count('\n') + [(relfile, x) for x in borg] + [(relfile, borg[-1])]
+    if spec.get('wrap_ok') == 'yes':
+        # the arm's block is an expression of the enclosing function's Ok type and may leave through `?`:
+        # `{ let __v = BLOCK; Ok(__v) }` gives the wrapper the enclosing function's Result type
+        text = head + '{ let __v = ' + body + ';\n  Ok(__v) }\n'
+        applied.append(f"matcharm {relfile}:{line0}: arm value wrapped as `{{ let __v = BLOCK; Ok(__v) }}` (the arm contains `?`)")
+    else:
+        text = head + body + '\n'
+    origins = [(relfile, line0)] * head.count('\n') + [(relfile, x) for x in borg] + [(relfile, borg[-1])] * 2
     applied.insert(0, f"matcharm {relfile}:{line0}: block of the arm `{spec['first']} .. =>` inside fn {spec['fn']} wrapped as fn {spec['as']}({spec['params']})")
     if not twin:
         log.extend(applied)
@@ -388,6 +408,26 @@ def build_item(spec: dict, sections: dict, substs: list, defines: set, log: list
         c = rsx.match_close(toks, it.first_tok + 1)
         edits.append(Edit(toks[it.first_tok].start, toks[c].end, 'pub', 'R7'))
         applied.append(f'R7 {where}: {src[toks[it.first_tok].start:toks[c].end]} -> pub')
+    # R7: private fields of a struct -> pub (pub_fields=yes): the single-file crate's specs name them
+    if kind == 'struct' and spec.get('pub_fields') == 'yes' and it.open_tok is not None and toks[it.open_tok].text == '{':
+        j = it.open_tok + 1
+        while j < it.close_tok:
+            t = toks[j]
+            if t.text in ('(', '[', '{', '<'):
+                if t.text == '<':
+                    depth = 0
+                    while j < it.close_tok:
+                        if toks[j].text == '<': depth += 1
+                        elif toks[j].text == '>': depth -= 1
+                        elif toks[j].text == '>>': depth -= 2
+                        if depth <= 0: break
+                        j += 1
+                else:
+                    j = rsx.match_close(toks, j)
+            elif t.kind == 'ident' and toks[j + 1].text == ':' and toks[j - 1].text in ('{', ',', ']') :
+                edits.append(Edit(t.start, t.start, 'pub ', 'R7'))
+                applied.append(f'R7 {where}: field `{t.text}` -> pub')
+            j += 1
     # R1: `#[default]` on an enum variant goes with the stripped `Default` derive
     if kind == 'enum' and it.open_tok is not None:
         for j in range(it.open_tok, it.close_tok):
@@ -694,7 +734,24 @@ def _rewrite_r12(it, rewrites, edits, applied, relfile, lo_t, hi_t):
             c = rsx.match_close(toks, j + 2)
             inner = [t.text for t in toks[j + 3:c]]
             if '#' in inner:
-                raise LostAnchor(f'{relfile}:{it.line_of(toks[j].start)}: quote! with interpolation cannot be rewritten by R12')
+                # R12 with interpolation: `quote! { A B #x C #y }` -> `__quote_parts(&["A", "B", "C"], &[__qs(&x), __qs(&y)], &[2, 3])`:
+                # the literal tokens, the spliced values, and for each spliced value the number of literal tokens before it
+                # (repetitions `#( .. )*` are not supported)
+                lits, subs, cuts, k = [], [], [], 0
+                while k < len(inner):
+                    if inner[k] == '#':
+                        if k + 1 >= len(inner) or not re.match(r'[A-Za-z_][A-Za-z0-9_]*$', inner[k + 1]):
+                            raise LostAnchor(f'{relfile}:{it.line_of(toks[j].start)}: quote! with a repetition or non-identifier splice cannot be rewritten by R12')
+                        subs.append(inner[k + 1]); cuts.append(len(lits)); k += 2
+                    else:
+                        lits.append(inner[k]); k += 1
+                esc = lambda t: t.replace('\\', '\\\\').replace('"', '\\"')
+                call = ('__quote_parts(&[' + ', '.join(f'"{esc(t)}"' for t in lits) + '], &[' + ', '.join(f'__qs(&{t})' for t in subs)
+                        + '], &[' + ', '.join(str(c) for c in cuts) + '])')
+                edits.append(Edit(toks[j].start, toks[c].end, call, 'R12'))
+                applied.append(f'R12 {relfile}:{it.line_of(toks[j].start)}: `quote! {{ {" ".join(inner)} }}` -> `{call}`')
+                j = c + 1
+                continue
             text = ' '.join(inner).replace('\\', '\\\\').replace('"', '\\"')
             edits.append(Edit(toks[j].start, toks[c].end, f'__quote("{text}")', 'R12'))
             applied.append(f'R12 {relfile}:{it.line_of(toks[j].start)}: `quote! {{ {" ".join(inner)} }}` -> `__quote("{text}")`')
@@ -704,12 +761,16 @@ def _rewrite_r12(it, rewrites, edits, applied, relfile, lo_t, hi_t):
 
 
 def _hoist_closures(it, sections, edits, applied, relfile):
-    """R13: `let NAME = |PARAMS| BODY;` (capture-free, named in a //@closure section) -> a separate fn NAME."""
+    """R13: `let NAME = |PARAMS| BODY;` (named in a //@closure section) -> a separate fn NAME. Capture-free
+    closures become free functions; a closure that captures only `self` (//@closure NAME RET self) becomes a
+    method `fn NAME(&self, PARAMS)` and its call sites `NAME(..)` become `self.NAME(..)`. Other rewrites that fall
+    inside the closure body are applied to the hoisted text."""
     toks, src = it.toks, it.src
     hoisted = ''
     names = [k[1] for k in sections if k[0] == 'closure']
     for name in names:
         found = False
+        on_self = sections.get(('closure_self', name), False)
         j = it.open_tok + 1
         while j < it.close_tok:
             if (toks[j].text == 'let' and toks[j + 1].text == name and toks[j + 2].text == '=' and toks[j + 3].text == '|'):
@@ -723,12 +784,29 @@ def _hoist_closures(it, sections, edits, applied, relfile):
                     if toks[m].text in ('(', '[', '{'):
                         m = rsx.match_close(toks, m)
                     m += 1
-                body = src[toks[k + 1].start:toks[m - 1].end]
+                b0 = k + 1
+                if toks[b0].text == '->':          # `|..| -> T { .. }`: the annotated type is dropped, the block is the body
+                    while toks[b0].text != '{':
+                        b0 += 1
+                lo, hi = toks[b0].start, toks[m - 1].end
+                inner = sorted([e for e in edits if lo <= e.start and e.end <= hi], key=lambda e: e.start)
+                body, pos = '', lo
+                for e in inner:
+                    body += src[pos:e.start] + e.text
+                    pos = e.end
+                    edits.remove(e)
+                body += src[pos:hi]
                 ret = sections[('closure_ret', name)]
                 contract = sections[('closure', name)].rstrip()
-                hoisted += (f'fn {name}({params}) -> (r: {ret})\n{contract}\n{{\n    {body}\n}}\n\n')
+                recv = '&self, ' if on_self else ''
+                hoisted += (f'fn {name}({recv}{params}) -> (r: {ret})\n{contract}\n{{\n    {body}\n}}\n\n')
                 edits.append(Edit(toks[j].start, toks[m].end, f'/* closure `{name}` hoisted (R13) */', 'R13'))
-                applied.append(f'R13 {relfile}:{it.line_of(toks[j].start)}: capture-free closure `let {name} = |{params}| ..;` hoisted to `fn {name}({params}) -> {ret}`')
+                applied.append(f'R13 {relfile}:{it.line_of(toks[j].start)}: closure `let {name} = |{params}| ..;` '
+                               f'{"capturing only self hoisted to a method" if on_self else "(capture-free) hoisted to"} `fn {name}({recv}{params}) -> {ret}`')
+                if on_self:
+                    for q in range(m + 1, it.close_tok):
+                        if toks[q].kind == 'ident' and toks[q].text == name and toks[q + 1].text == '(' and toks[q - 1].text != '.':
+                            edits.append(Edit(toks[q].start, toks[q].end, f'self.{name}', 'R13'))
                 found = True
                 break
             j += 1
@@ -962,10 +1040,11 @@ def assemble(template: str, defines: set | None = None) -> Assembled:
                     sections.setdefault(('droparm',), [])
                     sections[('droparm',)].append(m.group(1))
                     continue
-                m = re.match(r'//@closure\s+(\w+)\s+(\S+)\s*$', s2)
+                m = re.match(r'//@closure\s+(\w+)\s+(\S+?)(\s+self)?\s*$', s2)
                 if m:
                     cur = ('closure', m.group(1)); sections[cur] = ''
                     sections[('closure_ret', m.group(1))] = m.group(2)
+                    sections[('closure_self', m.group(1))] = bool(m.group(3))
                     continue
                 m = re.match(r'//@subst\s+(\S+)\s+(\S+)\s*$', s2)
                 if m:
